@@ -79,6 +79,18 @@ func (l *Loop) pollAction(n *HotNode) Action {
 				n.Handle.ReadLimit = 1
 				before = n.Snapshot()
 				nLog = len(inc.Logger.Lines)
+			} else {
+				// stop this tick right before the next adversarial entry, so
+				// that the entry is consumed by a tick of its own
+				for o := off + 1; o < uint64(w.Board.Len()); o++ {
+					if w.Board.Injected[o] != nil {
+						lim := int(o - off)
+						if n.Handle.ReadLimit == 0 || n.Handle.ReadLimit > lim {
+							n.Handle.ReadLimit = lim
+						}
+						break
+					}
+				}
 			}
 		}
 		w.RunPollTick(inc.Poller)
